@@ -59,6 +59,28 @@ def split_top(s, sep):
     return out
 
 
+def canon_code(code: str) -> str:
+    """renumber loop ids by first occurrence within each command's code (ids only need to be distinct
+    inside one command; an inlined global pattern re-uses the ids of its stored code in Go)"""
+    toks = code.split(" ")
+    out = []
+    ids = {}
+    i = 0
+    while i < len(toks):
+        t = toks[i]
+        if t == "code":
+            ids = {}
+        if t in ("startLoop", "stopLoop") and i + 1 < len(toks):
+            out.append(t)
+            k = toks[i + 1]
+            out.append(str(ids.setdefault(k, len(ids))))
+            i += 2
+            continue
+        out.append(t)
+        i += 1
+    return " ".join(out)
+
+
 def is_ascii(b: bytes):
     return all(x < 0x80 for x in b)
 
@@ -131,6 +153,12 @@ def compare_run(ctx, cases, impl, model, proj_fields=ALL_FIELDS, what="matches d
         counters["compared"] += 1
         if mf.get("CODE") is not None and f.get("CODE") is not None and mf["CODE"] != f["CODE"]:
             counters["code_drift"] += 1
+        if mf.get("CODE2") is not None and f.get("CODE") is not None:
+            counters["code2_compared"] = counters.get("code2_compared", 0) + 1
+            if canon_code(mf["CODE2"]) != canon_code(f["CODE"]):
+                counters["code2_drift"] = counters.get("code2_drift", 0) + 1
+                if counters["code2_drift"] <= 3:
+                    counters.setdefault("code2_drift_samples", []).append(cid)
         if mres == "GENERR":
             mismatches.append(dict(id=cid, src=src, text=text, impl=ires, model="GENERR",
                                    what="implementation accepts a program the model's generator rejects"))
